@@ -218,6 +218,28 @@ fn valid_project(rng: &mut Rng, depth: u32) -> Files {
         }
         t.push_str("end\n");
     }
+    // values that are computed and dropped, one to four levels of pure operations above variable reads
+    // (an emitter that prunes or inlines unused temporaries must do so in one fixed order)
+    let pool = [
+        "a + b + c",
+        "(a * b) - (c + a)",
+        "[a, b + c]",
+        "(a, (b, c + 1))",
+        "a + b * c - (a - b) * (c + 1)",
+        "wo.inner.n + a",
+        "(wo.inner.n, [b, c * a])",
+        "-(a + b) * c",
+        "a < b + c",
+        "(a == b) or (b + 1 == c * 2)",
+        "[[a + 1, b], [c * 2]]",
+        "wo.inner",
+        "\"s\" + \"t\" + \"u\"",
+    ];
+    t.push_str("\nWInner :: blob {\n    n: int,\n}\n\nWOuter :: blob {\n    inner: WInner,\n}\n\nwdrop :: fn a: int, b: int, c: int do\n    wo :: WOuter { inner: WInner { n: a } }\n");
+    for _ in 0..(3 + rng.below(6)) {
+        t.push_str(&format!("    {}\n", pool[rng.below(pool.len())]));
+    }
+    t.push_str("    print(a)\nend\n");
     sy::one_file(&t)
 }
 
@@ -372,7 +394,7 @@ impl Check for C16 {
         }
         Finish {
             level: "exploration",
-            rule: "projects: valid generated programs extended with wide blobs/enums; invalid projects with 2-6 independent errors (in one blob, one enum, several blobs, one function, several functions, duplicate globals, several files, definitions colliding with preamble imports, unresolved names with equally close candidates). Each is compiled 8x in one process (every HashMap gets a fresh RandomState), with other projects of 1-4 files compiled in between (nothing of an earlier compilation may leak into the next), and, for 1 case in 4, 3x in fresh processes with different environment size and working directory. Fingerprint = Lua bytes, or the ordered list of (kind, file, span, Display, Debug) of the errors with ANSI colours stripped. Non-trivial: every project; distinct by content hash.".into(),
+            rule: "projects: valid generated programs extended with wide blobs/enums and a function full of computed-and-dropped pure expressions; invalid projects with 2-6 independent errors (in one blob, one enum, several blobs, one function, several functions, duplicate globals, several files, definitions colliding with preamble imports, unresolved names with equally close candidates). Each is compiled 8x in one process (every HashMap gets a fresh RandomState), with other projects of 1-4 files compiled in between (nothing of an earlier compilation may leak into the next), and, for 1 case in 4, 3x in fresh processes with different environment size and working directory. Fingerprint = Lua bytes, or the ordered list of (kind, file, span, Display, Debug) of the errors with ANSI colours stripped. Non-trivial: every project; distinct by content hash.".into(),
             extra: J::obj(),
             assumptions: vec!["colour codes are environment-controlled by design and are stripped".into()],
             exhaustive: false,
